@@ -116,10 +116,13 @@ PROPS = {
                 "variants / near-miss tokens (prefix, suffix, case, NUL, inner space, other route's, global against an overriding route) / multiple values; "
                 "must-reject when no presented value is a bearer token of the effective allowlist under the most lenient reading (=> 401/Unauthenticated, "
                 "queue unchanged, no items), must-accept for exactly 'Bearer T'; everything else unspecified; non-trivial = a near-miss credential or a "
-                "config with an empty allowlist",
+                "config with an empty allowlist || after-reload tier: C18's (old, new) configuration pairs with the whole probe battery answered once under the old configuration, "
+                "then a real reload; afterwards no pull endpoint may hand out messages (every route holds a stock, the answer names the route served) to a token, or from a route, "
+                "other than a process started on the new configuration does",
         "assumptions": [SAMPLED, "the Worker server is wired in the harness exactly as startServers wires it (real gRPC transport over TCP is not used)"],
         "guards": ["must-reject", "must-accept", "api-pull", "api-worker", "api-admin", "config-with-empty-allowlist"],
-        "parts": [{"engine": "front", "test": "TestProp_C11_Authz", "quick": 3000, "thorough": 300000}],
+        "parts": [{"engine": "front", "test": "TestProp_C11_Authz", "quick": 3000, "thorough": 300000},
+                  {"engine": "front", "test": "TestProp_C11_AfterReload", "quick": 1200, "thorough": 40000, "shards": {"quick": 8}}],
     },
     "C07": {
         "rule": "body bytes (ramps over 0x00-0xFF, NULs, invalid UTF-8, CR/LF text; sizes 0,1,..,max_body-1,max_body,max_body+1 with generated max_body "
